@@ -105,3 +105,13 @@ Proof.
   rewrite read_int_spec by (assumption || lia). cbn [bind cpos negb andb]. reflexivity.
 Qed.
 Print Assumptions generated_int_raw_lsb_meets_C04.
+
+(* the generated _twos_complement inverts the two's complement encoding: every integer of the n-bit signed range comes back
+   from its own n-bit pattern, through the code as translated from the current source *)
+Theorem generated_twos_complement_inverse n x : 1 <= n -> - 2 ^ (n - 1) <= x < 2 ^ (n - 1) ->
+  gen_twos_complement (VInt (x mod 2 ^ n)) (VInt n) = Ok (VInt x).
+Proof.
+  intros Hn Hx. rewrite gen_twos_complement_is_model by assumption.
+  destruct (signed_of_inverse n x Hn Hx) as (_ & _ & E). now rewrite E.
+Qed.
+Print Assumptions generated_twos_complement_inverse.
